@@ -150,9 +150,18 @@ class Module(object):
                     self.constants[t.id] = node.value
                     self.assign_counts[t.id] = self.assign_counts.get(t.id, 0) + 1
                 elif isinstance(t, (ast.Tuple, ast.List)):
-                    for e in t.elts:
+                    for i_, e in enumerate(t.elts):
                         if isinstance(e, ast.Name):
                             self.assign_counts[e.id] = self.assign_counts.get(e.id, 0) + 1
+                            # A, B = 'a', 'b'  /  A, B = range(2): the i-th name is the i-th item of the value
+                            if isinstance(node.value, (ast.Tuple, ast.List)) and len(node.value.elts) == len(t.elts) and \
+                                    not any(isinstance(x, ast.Starred) for x in list(node.value.elts) + list(t.elts)):
+                                self.constants[e.id] = node.value.elts[i_]
+                            elif not any(isinstance(x, ast.Starred) for x in t.elts):
+                                item = ast.Subscript(value=node.value, slice=ast.Constant(value=i_), ctx=ast.Load())
+                                ast.copy_location(item, node.value)
+                                ast.fix_missing_locations(item)
+                                self.constants[e.id] = item
         elif isinstance(node, ast.AugAssign) and isinstance(node.target, ast.Name):
             self.assign_counts[node.target.id] = self.assign_counts.get(node.target.id, 0) + 1
         elif isinstance(node, ast.ClassDef):
